@@ -41,6 +41,10 @@ type sinkPlan struct {
 	Limit     int // HTTP: answer 413 to bodies longer than Limit (0 = no limit)
 	FailFirst int // answer FailCode / an error to the next FailFirst requests
 	FailCode  int
+	// Poison: every body (that passes the Limit) containing this marker is
+	// answered FailCode, for as long as the plan is installed: a retryable
+	// failure that persists until the plugin gives the batch up.
+	Poison string
 }
 
 type recorder struct {
@@ -74,7 +78,7 @@ func (r *recorder) take() []capture {
 }
 
 // decide applies the plan to one request of the given size.
-func (r *recorder) decide(size int) (ok bool, code int) {
+func (r *recorder) decide(size int, body []byte) (ok bool, code int) {
 	r.mu.Lock()
 	defer r.mu.Unlock()
 	if r.plan.FailFirst > 0 {
@@ -83,6 +87,9 @@ func (r *recorder) decide(size int) (ok bool, code int) {
 	}
 	if r.plan.Limit > 0 && size > r.plan.Limit {
 		return false, http.StatusRequestEntityTooLarge
+	}
+	if r.plan.Poison != "" && bytes.Contains(body, []byte(r.plan.Poison)) {
+		return false, r.plan.FailCode
 	}
 	return true, 0
 }
@@ -130,7 +137,7 @@ func (s *httpSink) handle(w http.ResponseWriter, req *http.Request) {
 			return
 		}
 	}
-	ok, code := s.rec.decide(len(body))
+	ok, code := s.rec.decide(len(body), body)
 	c := capture{Body: body, Accepted: ok, Path: req.RequestURI, CType: req.Header.Get("Content-Type")}
 	if ok {
 		c.Status = s.okCode
@@ -256,7 +263,7 @@ func (k *kafkaRecorder) ProduceSync(_ context.Context, rs ...*kgo.Record) kgo.Pr
 	for _, r := range rs {
 		c.Records = append(c.Records, kafkaRec{Topic: r.Topic, Value: append([]byte(nil), r.Value...)})
 	}
-	ok, _ := k.rec.decide(0)
+	ok, _ := k.rec.decide(0, nil)
 	c.Accepted = ok
 	k.rec.add(c)
 	res := make(kgo.ProduceResults, 0, len(rs))
